@@ -3,6 +3,7 @@
 COMMON = ["harness/mon.c", "harness/lec.c", "ref/ref.c"]
 DRIVER_SOURCES = {
     "drv_codec": {"src": ["harness/drv_codec.c"] + COMMON},
+    "drv_format": {"src": ["harness/drv_format.c"] + COMMON},
 }
 
 TRUST = ["compiler sanitizers (ASan/UBSan) observe only executed paths",
@@ -22,7 +23,29 @@ def codec(prop, level, rule, flavours=("asan",), modes=(None,), **kw):
     return d
 
 
+def fmt(prop, rule, flavours=("asan",), **kw):
+    d = {"level": "exploration", "rule": rule, "assumptions": TRUST,
+         "runs": [{"name": fl, "flavour": fl, "driver": "drv_format", "args": []} for fl in flavours]}
+    d.update(kw)
+    return d
+
+
 PROPS = {
+    "C07": fmt("C07", "case = one encode (config, checksum type, legacy-CRC switch value, length, data kind); every byte of every fragment compared with the independent serializer (header at literal offsets, bitwise CRCs, model parity); "
+               "sizeof/offsetof of the public header struct reported as runtime facts; non-trivial = every encode; distinct = (config, switch, length, data kind)",
+               flavours=("asan", "plain", "clang")),
+    "C08": fmt("C08", "case = block of lengths for one config: the three size queries vs the arithmetic model and vs what encode(len) actually produces (fragment_len, header size/orig fields); all lengths 0..4A+1, windows around multiples of A up to 64 KiB, powers of two +-1 up to 2^20; "
+               "dead/unknown descriptors must answer negative; non-trivial = every length; distinct = (config, length)"),
+    "C09": fmt("C09", "mutated copies of headers encode produced: all 640 single-bit flips, every byte set to 3 seeded values, multi-byte edits, version/magic/endianness rewrites with and without re-sealing with either CRC variant, half-correct CRCs, padding edits; "
+               "oracle = raw-byte acceptance predicate; observed through get_fragment_metadata, is_invalid_fragment_header, decode and reconstruct (-EBADHEADER for rejected or opposite-endian headers), before/after byte comparison; "
+               "mutants the reference accepts that enlarge size fields are discarded (forged input); non-trivial = every mutant; distinct = mutated header bytes per config",
+               exhaustive_scope="the 640 single-bit flips of each examined header are exhaustive; other mutation classes are sampled"),
+    "C10": fmt("C10", "stored payload checksum of every encoded and reconstructed fragment vs bitwise CRC-32 (standard / historical per LIBERASURECODE_WRITE_LEGACY_CRC in {unset,'','0','1','yes'}); chksum_mismatch and is_invalid_fragment under every single-bit payload flip (payload<=256B), bursts, byte edits, forged stored values; "
+               "cross-switch validation; liberasurecode_crc32_alt vs bitwise historical model on random buffers; non-trivial = corrupted payload or legacy buffer block; distinct = corrupted fragment bytes"),
+    "C11": fmt("C11", "for every fragment f and its field-swapped twin f' (offset-table twin builder, KAT: LE golden header <-> BE golden header): get_fragment_metadata rc and all logical fields equal, header verdict equal, payload corruption detected equally; variants pristine / payload bit / re-sealed field edits / stale seal; "
+               "non-trivial = every twin pair; distinct = (config, length, fragment, variant)"),
+    "C12": fmt("C12", "instances I x fragments from instances J x single-field edits re-sealed with a correct metadata CRC (idx in {0,n-1,n,n+1,2^31,2^32-1,...}, backend id 0..255, backend/library version +-1, mismatch flag, payload bit, stale seal, twin, random magic); "
+               "is_invalid_fragment and verify_stripe_metadata vs the literal reference verdict; just-encoded and just-reconstructed fragments must validate; non-trivial = every edited header; distinct = header bytes per instance"),
     "C01": codec("C01", "exploration",
                  "case = one liberasurecode_decode call on (config, length, data kind, erasure set within tolerance, presentation of survivors, force flag); "
                  "oracle = original bytes; non-trivial = at least one DATA fragment erased (backend decode really runs); distinct = (config, erasure set, presentation, force, length class)",
